@@ -79,7 +79,7 @@ class EarlyStopping(CallbackBase):
         quantity_name,
         criterion="relative",
     ):
-        self.period = period
+        self.period = int(period)
         self.tolerance = tolerance
         self.patience = int(patience)
         self.quantity_name = quantity_name
